@@ -23,14 +23,17 @@ impl FileSystem for Vfs {
         #[cfg(target_os = "linux")]
         {
             if n_opts.no_open {
-                n_opts.no_open = !(opts & FsOptions::ZERO_MESSAGE_OPEN).is_empty();
+                // Only when the reply is going to enable it (`out_opts` may be caller supplied).
+                n_opts.no_open =
+                    !(opts & n_opts.out_opts & FsOptions::ZERO_MESSAGE_OPEN).is_empty();
                 // We can't support FUSE_ATOMIC_O_TRUNC with no_open
                 n_opts.out_opts.remove(FsOptions::ATOMIC_O_TRUNC);
             } else {
                 n_opts.out_opts.remove(FsOptions::ZERO_MESSAGE_OPEN);
             }
             if n_opts.no_opendir {
-                n_opts.no_opendir = !(opts & FsOptions::ZERO_MESSAGE_OPENDIR).is_empty();
+                n_opts.no_opendir =
+                    !(opts & n_opts.out_opts & FsOptions::ZERO_MESSAGE_OPENDIR).is_empty();
             } else {
                 n_opts.out_opts.remove(FsOptions::ZERO_MESSAGE_OPENDIR);
             }
